@@ -97,6 +97,11 @@ impl Array6 {
         self.estimator.hip_accum()
     }
 
+    /// Whether the estimator is out of order, i.e. its HIP accumulator is not valid
+    pub(super) fn is_out_of_order(&self) -> bool {
+        self.estimator.is_out_of_order()
+    }
+
     /// Set value in a slot (6-bit value)
     ///
     /// Uses read-modify-write on 16-bit window to preserve surrounding bits.
